@@ -330,6 +330,7 @@ func runC03(c *Ctx) {
 	// measure the emitter applies to each line it prints
 	if lines := c.Func("length", "Lines"); lines != nil {
 		importPremises(c, "R03.3", "cell-width premise: ", "the column is sized from this measure", nil, func() { c18LongestAll(c, lines, []string{"Cells"}) })
+		importPremises(c, "R03.3", "cell-width premise: ", "the column is sized from the width the cell records", nil, func() { c18WidthStores(c, "R18.2") })
 	}
 
 	// ---- R03.4
